@@ -180,6 +180,7 @@ func runHTTPFake(in httpIn) (out httpOut, fake *Fake) {
 		}
 	}
 	cancel()
+	fake.WaitImports(2 * time.Second)
 	if panicked != "" {
 		out.Panic = panicked
 	}
